@@ -46,6 +46,9 @@ def gen_case(ctx):
 def fixed_cases(tier):
     """every chain constructor on the start face and on the end face (the random part reaches a start face only now and then)"""
     out = []
+    # one case of every class first: the REQUIRED class counters are reached even when a loaded machine cuts the random part short
+    for i, cls in enumerate(CLASSES):
+        out.append({"cls": cls, "seed": 12345 + 7 * i, "chop": ["count", "size", "size+c2c"][i % 3]})
     for cls in ("chain:cylinder", "chain:elbow", "chain:frustum", "chain:hemisphere", "ring:chain"):
         for sf in (True, False):
             for k in range(2 if tier == "quick" else 12):
